@@ -89,17 +89,14 @@ theorem goodLoop_step {e p p1 f1 evs1 p2 f2 evs2}
 
 theorem good_star_of_loop {e p res evs} (h : GoodLoop P cfg env inp e p res evs) :
     Good P cfg env inp (.star e) p res evs := by
-  intro ko pd pmk st code pc s f hc hp hlead
-  simp only [Lead] at hlead
-  subst hlead
-  have hpmk := compile_pd_false env e (st.label + 1) pmk { st with label := st.label + 2 }
+  intro ko pd pmk st code pc s f hc hp _
   have h' := h st.label (st.label + 1) { st with label := st.label + 2 } code pc s f
-    (by simpa [compile, loopCode, hpmk] using hc) hp (by simp) (by simp)
+    (by simpa [compile, loopCode] using hc) hp (by simp) (by simp)
   cases res with
   | ok p' forest =>
     obtain ⟨s', f', hS, _, hst⟩ := h'
     refine ⟨s', f', by simpa using hS, ?_⟩
-    exact hst.cast (by simp [compile, loopCode, hpmk])
+    exact hst.cast (by simp [compile, loopCode])
   | fail => exact h'.elim
 
 theorem good_plus_fail {e p evs} (ih : Good P cfg env inp e p .fail evs) :
